@@ -88,5 +88,66 @@ theorem feas_root_spec (hinv : ∀ z : ℂ, ‖z‖ = 1 → A.eval z⁻¹ = (sta
     (feas_coeff_zero_ne A n hn hd h0) (feas_no_unit_root A n hn hd h0 hinv hsup)
 
 end
+/-! ## the list level -/
+
+/-- `Σ_j F_j X^j` -/
+noncomputable def polyL : List ℝ → ℂ[X]
+  | [] => 0
+  | c :: cs => C (c : ℂ) + X * polyL cs
+
+/-- 1-norm -/
+def l1P : List ℝ → ℝ
+  | [] => 0
+  | c :: cs => |c| + l1P cs
+
+theorem polyL_inv (F : List ℝ) (z : ℂ) (hz : ‖z‖ = 1) :
+    (polyL F).eval z⁻¹ = (starRingEnd ℂ) ((polyL F).eval z) := by
+  have hzinv : z⁻¹ = (starRingEnd ℂ) z := by
+    rw [Complex.inv_def, Complex.normSq_eq_norm_sq, hz]; simp
+  induction F with
+  | nil => simp [polyL]
+  | cons c cs ih =>
+    simp only [polyL, eval_add, eval_C, eval_mul, eval_X, ih, map_add, map_mul, Complex.conj_ofReal]
+    rw [hzinv]
+
+theorem polyL_norm (F : List ℝ) (z : ℂ) (hz : ‖z‖ = 1) : ‖(polyL F).eval z‖ ≤ l1P F := by
+  induction F with
+  | nil => simp [polyL, l1P]
+  | cons c cs ih =>
+    simp only [polyL, eval_add, eval_C, eval_mul, eval_X, l1P]
+    refine (norm_add_le _ _).trans (add_le_add ?_ ?_)
+    · rw [Complex.norm_real, Real.norm_eq_abs]
+    · rw [norm_mul, hz, one_mul]; exact ih
+
+theorem polyL_coeff_zero (c : ℝ) (cs : List ℝ) : (polyL (c :: cs)).coeff 0 = (c : ℂ) := by
+  simp [polyL]
+
+theorem polyL_natDegree : ∀ (F : List ℝ) (hne : F ≠ []), F.getLast hne ≠ 0 →
+    polyL F ≠ 0 ∧ (polyL F).natDegree = F.length - 1
+  | [], hne, _ => absurd rfl hne
+  | [c], _, h => by
+    have hc : (c : ℂ) ≠ 0 := by simpa using h
+    simp [polyL, hc]
+  | c :: d :: ds, _, h => by
+    obtain ⟨hQ, hdQ⟩ := polyL_natDegree (d :: ds) (by simp) (by simpa using h)
+    have hd : (polyL (c :: d :: ds)).natDegree = (d :: ds).length := by
+      show (C (c : ℂ) + X * polyL (d :: ds)).natDegree = _
+      rw [add_comm, natDegree_add_C, natDegree_X_mul hQ, hdQ]; simp
+    refine ⟨?_, by rw [hd]; simp⟩
+    intro h0
+    rw [h0] at hd; simp at hd
+
+theorem feasible_root_spec (F : List ℝ) (n : ℕ) (hlen : F.length = n + 1) (hn : 1 ≤ n)
+    (hl1 : l1P F < 1) (hne : F ≠ []) (hh : F.head hne ≠ 0) (hl : F.getLast hne ≠ 0) :
+    ∃ S : List ℂ, S.length = n ∧ (∀ s ∈ S, s ≠ 0 ∧ ‖s‖ < 1) ∧
+      feasPoly (polyL F) n = C (feasPoly (polyL F) n).leadingCoeff * recipProd S := by
+  have hd : (polyL F).natDegree = n := by rw [(polyL_natDegree F hne hl).2, hlen]; simp
+  have h0 : (polyL F).coeff 0 ≠ 0 := by
+    cases F with
+    | nil => exact absurd rfl hne
+    | cons c cs => rw [polyL_coeff_zero]; simpa using hh
+  exact feas_root_spec (polyL F) n hn hd h0 (polyL_inv F)
+    (fun z hz => lt_of_le_of_lt (polyL_norm F z hz) hl1)
+
 end RootSpec
 end QSP
